@@ -29,7 +29,7 @@ def bounds(tier):
 
 def configs(tier):
     out = []
-    shapes = [[2, 3]] + ([[3, 3], [2, 2]] if tier != "quick" else [])
+    shapes = [[2, 3]] + ([[3, 3], [2, 2], [3, 4], [1, 3], [4, 1]] if tier != "quick" else [])
     for shape in shapes:
         for c in CORRS:
             out.append(dict(kind="workflow", shape=shape, corr=c, T=2 if tier == "quick" else 3))
